@@ -415,6 +415,70 @@ type program struct {
 	after    func() string // extra check on the host side after the run ("" = fine)
 }
 
+// variant says how the entries of a de-duplicated table are used once the n distinct ones are in:
+// which of them are used again, whether everything happens inside a function literal (which has
+// its own tables), and how many further entries are declared but never used.
+type variant struct {
+	reuse   []int
+	closure bool
+	unused  int
+}
+
+func (v variant) String() string {
+	if len(v.reuse) == 0 && !v.closure && v.unused == 0 {
+		return "-"
+	}
+	var parts []string
+	if len(v.reuse) > 0 {
+		var r []string
+		for _, i := range v.reuse {
+			r = append(r, strconv.Itoa(i))
+		}
+		parts = append(parts, "r"+strings.Join(r, ","))
+	}
+	if v.closure {
+		parts = append(parts, "c")
+	}
+	if v.unused > 0 {
+		parts = append(parts, "u"+strconv.Itoa(v.unused))
+	}
+	return strings.Join(parts, ";")
+}
+
+func parseVariant(s string) (v variant) {
+	if s == "-" {
+		return
+	}
+	for _, p := range strings.Split(s, ";") {
+		switch {
+		case p == "c":
+			v.closure = true
+		case strings.HasPrefix(p, "u"):
+			v.unused, _ = strconv.Atoi(p[1:])
+		case strings.HasPrefix(p, "r"):
+			for _, x := range strings.Split(p[1:], ",") {
+				i, _ := strconv.Atoi(x)
+				v.reuse = append(v.reuse, i)
+			}
+		}
+	}
+	return
+}
+
+// uses is the sequence of entry numbers the program uses: 0 … n-1, then the re-used ones.
+func (v variant) uses(n int) []int {
+	idx := make([]int, 0, n+len(v.reuse))
+	for i := 0; i < n; i++ {
+		idx = append(idx, i)
+	}
+	for _, r := range v.reuse {
+		if r >= 0 && r < n {
+			idx = append(idx, r)
+		}
+	}
+	return idx
+}
+
 type sweep struct {
 	name   string
 	table  string // row of the limits table the swept quantity fills ("" = no prediction of the model is compared)
@@ -423,8 +487,12 @@ type sweep struct {
 	scale  int    // unchanged tree: the accumulator s, its temporaries, the "" constant …
 	heavy  bool   // thorough tier only
 	big    bool   // one size costs around a second: fewer sizes
-	gen    func(n int) program
+	dedup  bool   // the table is de-duplicated: variants with re-used entries make sense
+	unused bool   // entries can be declared without being used (functions, natives, fields, globals)
+	gen    func(n int, v variant) program
 }
+
+func (s sweep) template() bool { return strings.HasPrefix(s.name, "template-") }
 
 func lines(n int, f func(i int) string) string {
 	var sb strings.Builder
@@ -434,12 +502,29 @@ func lines(n int, f func(i int) string) string {
 	return sb.String()
 }
 
+func linesOf(idx []int, f func(i int) string) string {
+	var sb strings.Builder
+	for _, i := range idx {
+		sb.WriteString(f(i))
+	}
+	return sb.String()
+}
+
 func prog(src string, want string) program {
 	return program{files: scriggo.Files{"main.go": []byte(src)}, want: want}
 }
 
+// mainOf assembles `package main … func main() { pre; stmts; post }`, the statements inside a
+// function literal (which captures the variables of pre) when closure is set.
+func mainOf(top, pre, stmts, post string, closure bool) string {
+	if closure {
+		stmts = "\tfn := func() {\n" + stmts + "\t}\n\tfn()\n"
+	}
+	return "package main\n" + top + "func main() {\n" + pre + stmts + post + "}\n"
+}
+
 func localsSweep(name string, base int, decl func(i int) string, use func(i int) string, val func(i int) int) sweep {
-	return sweep{name: name, table: "Registers", base: base, gen: func(n int) program {
+	return sweep{name: name, table: "Registers", base: base, gen: func(n int, _ variant) program {
 		sum := 0
 		for i := 0; i < n; i++ {
 			sum += val(i)
@@ -459,6 +544,14 @@ func nativeVars(n int) (native.Packages, []int) {
 	return native.Packages{"p": native.Package{Name: "p", Declarations: decls}}, vals
 }
 
+func mul3(idx []int) int {
+	s := 0
+	for _, i := range idx {
+		s = s*3 + i
+	}
+	return s
+}
+
 func sweeps() []sweep {
 	ss := []sweep{
 		localsSweep("locals-int", 2, func(i int) string { return fmt.Sprintf("v%d := %d", i, i%50) },
@@ -469,7 +562,7 @@ func sweeps() []sweep {
 			func(i int) string { return fmt.Sprintf("len(v%d)", i) }, func(i int) int { return i % 5 }),
 		localsSweep("locals-general", 1, func(i int) string { return fmt.Sprintf("v%d := make([]int, %d)", i, i%5) },
 			func(i int) string { return fmt.Sprintf("len(v%d)", i) }, func(i int) int { return i % 5 }),
-		{name: "temporaries-int", table: "Registers", scale: 2, base: 2, gen: func(n int) program {
+		{name: "temporaries-int", table: "Registers", scale: 2, base: 2, gen: func(n int, _ variant) program {
 			// g(0) + (g(1) + (g(2) + …)): every left operand is held while the rest is evaluated
 			expr := fmt.Sprintf("g(%d)", n-1)
 			sum := n - 1
@@ -479,7 +572,7 @@ func sweeps() []sweep {
 			}
 			return prog("package main\nfunc g(x int) int { return x }\nfunc main() {\n\ts := "+expr+"\n\tprintln(s)\n}\n", fmt.Sprintf("%d\n", sum))
 		}},
-		{name: "parameters-int", around: "Registers", gen: func(n int) program {
+		{name: "parameters-int", around: "Registers", gen: func(n int, _ variant) program {
 			var ps, as, add []string
 			sum := 0
 			for i := 0; i < n; i++ {
@@ -491,78 +584,82 @@ func sweeps() []sweep {
 			src := "package main\nfunc f(" + strings.Join(ps, ", ") + " int) int {\n\treturn " + strings.Join(add, " + ") + "\n}\nfunc main() {\n\tprintln(f(" + strings.Join(as, ", ") + "))\n}\n"
 			return prog(src, fmt.Sprintf("%d\n", sum))
 		}},
-		{name: "int-constants", table: "Values.Int", big: true, gen: func(n int) program {
+		{name: "int-constants", table: "Values.Int", big: true, dedup: true, gen: func(n int, v variant) program {
+			idx := v.uses(n)
 			sum := 0
-			for i := 0; i < n; i++ {
+			for _, i := range idx {
 				sum += 1000 + i
 			}
-			return prog("package main\nfunc main() {\n\ts := 0\n"+lines(n, func(i int) string { return fmt.Sprintf("\ts = s + %d\n", 1000+i) })+"\tprintln(s)\n}\n", fmt.Sprintf("%d\n", sum))
+			return prog(mainOf("", "\ts := 0\n", linesOf(idx, func(i int) string { return fmt.Sprintf("\ts = s + %d\n", 1000+i) }), "\tprintln(s)\n", v.closure), fmt.Sprintf("%d\n", sum))
 		}},
-		{name: "float-constants", table: "Values.Float", big: true, gen: func(n int) program {
+		{name: "float-constants", table: "Values.Float", big: true, dedup: true, gen: func(n int, v variant) program {
+			idx := v.uses(n)
 			sum := 0 // twice the float sum
-			for i := 0; i < n; i++ {
+			for _, i := range idx {
 				sum += 2*(1000+i) + 1
 			}
-			return prog("package main\nfunc main() {\n\tf := 0.0\n"+lines(n, func(i int) string { return fmt.Sprintf("\tf = f + %d.5\n", 1000+i) })+"\tprintln(int(f * 2))\n}\n", fmt.Sprintf("%d\n", sum))
+			return prog(mainOf("", "\tf := 0.0\n", linesOf(idx, func(i int) string { return fmt.Sprintf("\tf = f + %d.5\n", 1000+i) }), "\tprintln(int(f * 2))\n", v.closure), fmt.Sprintf("%d\n", sum))
 		}},
-		{name: "string-constants", table: "Values.String", base: 2, gen: func(n int) program {
+		{name: "string-constants", table: "Values.String", base: 2, dedup: true, gen: func(n int, v variant) program {
+			idx := v.uses(n)
 			sum := 0
-			for i := 0; i < n; i++ {
+			for _, i := range idx {
 				sum += len(fmt.Sprintf("c%d", i))
 			}
-			return prog("package main\nfunc main() {\n\ts := 0\n\tt := \"\"\n"+lines(n, func(i int) string { return fmt.Sprintf("\tt = \"c%d\"\n\ts = s + len(t)\n", i) })+"\tprintln(s)\n}\n", fmt.Sprintf("%d\n", sum))
+			return prog(mainOf("", "\ts := 0\n\tt := \"\"\n", linesOf(idx, func(i int) string { return fmt.Sprintf("\tt = \"c%d\"\n\ts = s + len(t)\n", i) }), "\tprintln(s)\n", v.closure), fmt.Sprintf("%d\n", sum))
 		}},
-		{name: "general-constants", table: "Values.General", base: 1, gen: func(n int) program {
+		{name: "general-constants", table: "Values.General", base: 1, dedup: true, gen: func(n int, v variant) program {
 			// a complex constant is a general value
+			idx := v.uses(n)
 			sum := 0
-			for i := 0; i < n; i++ {
+			for _, i := range idx {
 				sum += 1000 + i
 			}
-			return prog("package main\nfunc main() {\n\tvar c complex128\n"+lines(n, func(i int) string { return fmt.Sprintf("\tc = c + (%d + 1i)\n", 1000+i) })+"\tprintln(int(real(c)), int(imag(c)))\n}\n", fmt.Sprintf("%d %d\n", sum, n))
+			return prog(mainOf("", "\tvar c complex128\n", linesOf(idx, func(i int) string { return fmt.Sprintf("\tc = c + (%d + 1i)\n", 1000+i) }), "\tprintln(int(real(c)), int(imag(c)))\n", v.closure), fmt.Sprintf("%d %d\n", sum, len(idx)))
 		}},
-		{name: "types", table: "Types", base: 2, gen: func(n int) program {
-			return prog("package main\nfunc main() {\n\ts := 0\n\tvar e interface{} = [2]int8{}\n"+lines(n, func(i int) string {
-				return fmt.Sprintf("\tif _, ok := e.([%d]int8); ok {\n\t\ts = s + %d\n\t}\n", i+1, i+1)
-			})+"\tprintln(s)\n}\n", map[bool]string{true: "2\n", false: "0\n"}[n >= 2])
-		}},
-		{name: "scriggo-functions", table: "Functions", gen: func(n int) program {
-			s := 0
-			for i := 0; i < n; i++ {
-				s = s*3 + i
+		{name: "types", table: "Types", base: 2, dedup: true, gen: func(n int, v variant) program {
+			idx := v.uses(n)
+			want := 0
+			for _, i := range idx {
+				if i+1 == 2 {
+					want += 2
+				}
 			}
-			return prog("package main\n"+lines(n, func(i int) string { return fmt.Sprintf("func f%d() int { return %d }\n", i, i) })+
-				"func main() {\n\ts := 0\n"+lines(n, func(i int) string { return fmt.Sprintf("\ts = s*3 + f%d()\n", i) })+"\tprintln(s)\n}\n", fmt.Sprintf("%d\n", s))
+			return prog(mainOf("", "\ts := 0\n\tvar e interface{} = [2]int8{}\n", linesOf(idx, func(i int) string {
+				return fmt.Sprintf("\tif _, ok := e.([%d]int8); ok {\n\t\ts = s + %d\n\t}\n", i+1, i+1)
+			}), "\tprintln(s)\n", v.closure), fmt.Sprintf("%d\n", want))
 		}},
-		{name: "native-functions", table: "NativeFunctions", gen: func(n int) program {
+		{name: "scriggo-functions", table: "Functions", dedup: true, unused: true, gen: func(n int, v variant) program {
+			idx := v.uses(n)
+			return prog(mainOf(lines(n+v.unused, func(i int) string { return fmt.Sprintf("func f%d() int { return %d }\n", i, i) }),
+				"\ts := 0\n", linesOf(idx, func(i int) string { return fmt.Sprintf("\ts = s*3 + f%d()\n", i) }), "\tprintln(s)\n", v.closure), fmt.Sprintf("%d\n", mul3(idx)))
+		}},
+		{name: "native-functions", table: "NativeFunctions", dedup: true, unused: true, gen: func(n int, v variant) program {
+			idx := v.uses(n)
 			decls := native.Declarations{}
-			s := 0
-			for i := 0; i < n; i++ {
+			for i := 0; i < n+v.unused; i++ {
 				i := i
 				decls["F"+strconv.Itoa(i)] = func() int { return i }
-				s = s*3 + i
 			}
-			p := prog("package main\nimport \"p\"\nfunc main() {\n\ts := 0\n"+lines(n, func(i int) string { return fmt.Sprintf("\ts = s*3 + p.F%d()\n", i) })+"\tprintln(s)\n}\n", fmt.Sprintf("%d\n", s))
+			p := prog(mainOf("import \"p\"\n", "\ts := 0\n", linesOf(idx, func(i int) string { return fmt.Sprintf("\ts = s*3 + p.F%d()\n", i) }), "\tprintln(s)\n", v.closure), fmt.Sprintf("%d\n", mul3(idx)))
 			p.opts = &scriggo.BuildOptions{Packages: native.Packages{"p": native.Package{Name: "p", Declarations: decls}}}
 			return p
 		}},
-		{name: "field-indexes", table: "FieldIndexes", gen: func(n int) program {
-			s := 0
-			for i := 0; i < n; i++ {
-				s = s*3 + i
-			}
-			return prog("package main\ntype T struct {\n"+lines(n, func(i int) string { return fmt.Sprintf("\tF%d int\n", i) })+"}\nfunc main() {\n\tvar t T\n\ts := 0\n"+
-				lines(n, func(i int) string { return fmt.Sprintf("\tt.F%d = %d\n", i, i) })+lines(n, func(i int) string { return fmt.Sprintf("\ts = s*3 + t.F%d\n", i) })+"\tprintln(s)\n}\n", fmt.Sprintf("%d\n", s))
+		{name: "field-indexes", table: "FieldIndexes", dedup: true, unused: true, gen: func(n int, v variant) program {
+			idx := v.uses(n)
+			return prog(mainOf("type T struct {\n"+lines(n+v.unused, func(i int) string { return fmt.Sprintf("\tF%d int\n", i) })+"}\n", "\tvar t T\n\ts := 0\n",
+				lines(n, func(i int) string { return fmt.Sprintf("\tt.F%d = %d\n", i, i) })+linesOf(idx, func(i int) string { return fmt.Sprintf("\ts = s*3 + t.F%d\n", i) }), "\tprintln(s)\n", v.closure), fmt.Sprintf("%d\n", mul3(idx)))
 		}},
-		{name: "template-string-constants", table: "Values.String", base: 1, gen: func(n int) program {
+		{name: "template-string-constants", table: "Values.String", base: 1, dedup: true, gen: func(n int, v variant) program {
 			var src, want strings.Builder
 			src.WriteString("{% var t = \"\" %}")
-			for i := 0; i < n; i++ {
+			for _, i := range v.uses(n) {
 				fmt.Fprintf(&src, "{%% t = \"c%d\" %%}{{ len(t) }}", i)
 				fmt.Fprintf(&want, "%d", len(fmt.Sprintf("c%d", i)))
 			}
 			return program{template: true, files: scriggo.Files{"index.txt": []byte(src.String())}, want: want.String()}
 		}},
-		{name: "text-chunks", table: "Text", big: true, gen: func(n int) program {
+		{name: "text-chunks", table: "Text", big: true, gen: func(n int, _ variant) program {
 			// `{{ "" }}` between two texts: a Show instruction separates them, so emitText cannot merge
 			var src, want strings.Builder
 			for i := 0; i < n; i++ {
@@ -571,35 +668,41 @@ func sweeps() []sweep {
 			}
 			return program{template: true, files: scriggo.Files{"index.txt": []byte(src.String())}, want: want.String()}
 		}},
-		{name: "select-cases", table: "SelectCases", big: true, gen: func(n int) program {
+		{name: "select-cases", table: "SelectCases", big: true, gen: func(n int, _ variant) program {
 			p := prog("package main\nfunc main() {\n\tch := make(chan int, 1)\n\tch <- 7\n\tselect {\n"+strings.Repeat("\tcase <-ch:\n", n)+"\t}\n\tprintln(len(ch))\n}\n", "0\n")
 			p.ctx = true // the VM adds the context's done case to the compiled ones
 			return p
 		}},
-		{name: "global-variables", table: "Globals", big: true, gen: func(n int) program {
-			pkgs, vals := nativeVars(n)
-			p := prog("package main\nimport \"p\"\nfunc main() {\n"+lines(n, func(i int) string { return fmt.Sprintf("\tp.V%d = %d\n", i, i%7+1) })+
-				fmt.Sprintf("\tprintln(p.V0, p.V%d)\n}\n", n-1), fmt.Sprintf("1 %d\n", (n-1)%7+1))
+		{name: "global-variables", table: "Globals", big: true, dedup: true, unused: true, gen: func(n int, v variant) program {
+			idx := v.uses(n)
+			pkgs, vals := nativeVars(n + v.unused)
+			p := prog(mainOf("import \"p\"\n", "", linesOf(idx, func(i int) string { return fmt.Sprintf("\tp.V%d = %d\n", i, i%7+1) }),
+				fmt.Sprintf("\tprintln(p.V0, p.V%d)\n", n-1), false), fmt.Sprintf("1 %d\n", (n-1)%7+1))
 			p.opts = &scriggo.BuildOptions{Packages: pkgs}
 			p.after = func() string {
-				for i, v := range vals {
-					if v != i%7+1 {
-						return fmt.Sprintf("native variable V%d is %d after the run, the program assigned %d", i, v, i%7+1)
+				for i, val := range vals {
+					want := i%7 + 1
+					if i >= n {
+						want = 0
+					}
+					if val != want {
+						return fmt.Sprintf("native variable V%d is %d after the run, expected %d", i, val, want)
 					}
 				}
 				return ""
 			}
 			return p
 		}},
-		{name: "closure-variables", table: "ClosureVars", base: 1, heavy: true, big: true, gen: func(n int) program {
+		{name: "closure-variables", table: "ClosureVars", base: 1, heavy: true, big: true, dedup: true, gen: func(n int, v variant) program {
+			idx := v.uses(n)
 			pkgs, vals := nativeVars(n)
-			p := prog("package main\nimport \"p\"\nfunc main() {\n\tx := 1\n\tf := func() {\n"+lines(n, func(i int) string { return fmt.Sprintf("\t\tp.V%d = %d\n", i, i%7+1) })+
+			p := prog("package main\nimport \"p\"\nfunc main() {\n\tx := 1\n\tf := func() {\n"+linesOf(idx, func(i int) string { return fmt.Sprintf("\t\tp.V%d = %d\n", i, i%7+1) })+
 				fmt.Sprintf("\t\tx = 2\n\t}\n\tf()\n\tprintln(x, p.V%d)\n}\n", n-1), fmt.Sprintf("2 %d\n", (n-1)%7+1))
 			p.opts = &scriggo.BuildOptions{Packages: pkgs}
 			p.after = func() string {
-				for i, v := range vals {
-					if v != i%7+1 {
-						return fmt.Sprintf("native variable V%d is %d after the run, the closure assigned %d", i, v, i%7+1)
+				for i, val := range vals {
+					if val != i%7+1 {
+						return fmt.Sprintf("native variable V%d is %d after the run, the closure assigned %d", i, val, i%7+1)
 					}
 				}
 				return ""
@@ -714,59 +817,121 @@ func messageRegexp(format string) *regexp.Regexp {
 	return regexp.MustCompile("^" + q + "$")
 }
 
-func runCase(c *hx.Ctx, s sweep, n int, rows map[string]row) {
+func runCase(c *hx.Ctx, s sweep, n int, v variant, rows map[string]row) {
 	res := c.Res
-	caseLine := fmt.Sprintf("C20 sweep %s %d", s.name, n)
-	o := execute(s.gen(n))
+	caseLine := fmt.Sprintf("C20 sweep %s %d %s", s.name, n, v)
+	o := execute(s.gen(n, v))
 	r, haveRow := rows[s.table]
 	if s.scale == 0 {
 		s.scale = 1
 	}
 	near := haveRow && r.guard >= 0 && s.scale*n+s.base >= r.guard-2*s.scale
 	res.Count(caseLine, near)
-	res.Hist("sweep " + s.name + " → " + o.kind)
+	hist := "sweep " + s.name
+	if v.String() != "-" {
+		hist += " (entries re-used / declared unused)"
+	}
+	res.Hist(hist + " → " + o.kind)
 	if os.Getenv("C20_DEBUG") != "" {
 		fmt.Fprintf(os.Stderr, "%s: %s %s %s\n", caseLine, o.kind, o.msg, o.detail)
 	}
-	human := fmt.Sprintf("%s with %d swept entries (table %s)", s.name, n, s.table)
-	// the property's own oracle
-	if o.kind != "built" && o.kind != "limit" {
-		// shrink: the smallest size of this sweep that fails the same way, looked for among a few small
-		// sizes, the sizes around the operand's capacity and around the guard, and n/2
-		cands := []int{1, 2, 3, n / 2, n - 2, n - 1}
-		if haveRow {
-			if r.width > 0 {
-				at := (1<<uint(r.width) - r.reserved - s.base) / s.scale
-				cands = append(cands, at-1, at, at+1, at+2)
-			}
-			if r.guard >= 0 {
-				at := (r.guard - s.base) / s.scale
-				cands = append(cands, at-1, at, at+1, at+2)
-			}
+	human := func(n int, v variant) string {
+		h := fmt.Sprintf("%s with %d distinct entries (table %s)", s.name, n, s.table)
+		if len(v.reuse) > 0 {
+			h += fmt.Sprintf(", then entries %v used again", v.reuse)
 		}
-		sort.Ints(cands)
-		small := n
-		for _, m := range cands {
-			if m >= 1 && m < small {
-				if o2 := execute(s.gen(m)); o2.kind == o.kind {
-					small, o = m, o2
+		if v.closure {
+			h += ", inside a function literal"
+		}
+		if v.unused > 0 {
+			h += fmt.Sprintf(", %d more declared but not used", v.unused)
+		}
+		return h
+	}
+	// the model's prediction
+	var ans string
+	if c.D != nil && haveRow {
+		op := "outcome"
+		if len(v.reuse) > 0 {
+			op = "reuse"
+		}
+		ans, _ = c.D.Ask(fmt.Sprintf("C20 %s %s %d", op, s.table, s.scale*n+s.base))
+	}
+	// the property's own oracle: a program the limits let in builds and prints the generator's
+	// output; any other is refused with a limit-exceeded *BuildError. Whether the limits let it in is
+	// decided without the model when the variant only re-uses entries or leaves some unused: then the
+	// program needs exactly as many entries as the plain one of the same size, which was swept too.
+	bad := o.kind != "built" && o.kind != "limit"
+	within := false
+	if v.String() != "-" {
+		plain := execute(s.gen(n, variant{closure: v.closure}))
+		within = plain.kind == "built"
+		if within && o.kind == "limit" {
+			bad = true
+			o.kind, o.detail = "spurious-limit", o.detail+" (the same program without the re-used / unused entries builds)"
+		}
+	}
+	if bad {
+		same := func(o2 outcome, v2 variant, m int) bool {
+			if o.kind != "spurious-limit" {
+				return o2.kind == o.kind
+			}
+			return o2.kind == "limit" && execute(s.gen(m, variant{closure: v2.closure})).kind == "built"
+		}
+		small, sv := n, v
+		if v.String() != "-" {
+			// simplify the variant: one re-used entry, no closure, nothing unused
+			var simpler []variant
+			if len(v.reuse) > 0 {
+				simpler = append(simpler, variant{reuse: v.reuse[:1]}, variant{reuse: v.reuse[:1], closure: v.closure}, variant{reuse: v.reuse[:1], unused: v.unused})
+			} else {
+				simpler = append(simpler, variant{unused: v.unused}, variant{closure: v.closure})
+			}
+			for _, v2 := range simpler {
+				if v2.String() == v.String() || v2.String() == "-" {
+					continue
+				}
+				if o2 := execute(s.gen(n, v2)); same(o2, v2, n) {
+					sv = v2
+					if o.kind != "spurious-limit" {
+						o = o2
+					}
 					break
 				}
 			}
+		} else {
+			// the smallest size of this sweep that fails the same way, looked for among a few small
+			// sizes, the sizes around the operand's capacity and around the guard, and n/2
+			cands := []int{1, 2, 3, n / 2, n - 2, n - 1}
+			if haveRow {
+				if r.width > 0 {
+					at := (1<<uint(r.width) - r.reserved - s.base) / s.scale
+					cands = append(cands, at-1, at, at+1, at+2)
+				}
+				if r.guard >= 0 {
+					at := (r.guard - s.base) / s.scale
+					cands = append(cands, at-1, at, at+1, at+2)
+				}
+			}
+			sort.Ints(cands)
+			for _, m := range cands {
+				if m >= 1 && m < small {
+					if o2 := execute(s.gen(m, v)); o2.kind == o.kind {
+						small, o = m, o2
+						break
+					}
+				}
+			}
 		}
-		res.AddBreak(proto.Break{Kind: "property", Name: "limit-" + o.kind, Case: fmt.Sprintf("C20 sweep %s %d", s.name, small),
-			Human: fmt.Sprintf("%s with %d swept entries (table %s)", s.name, small, s.table), Impl: o.kind + ": " + o.detail,
-			Model: "built with the generator's output, or a *scriggo.BuildError with a limit-exceeded message"})
+		res.AddBreak(proto.Break{Kind: "property", Name: "limit-" + o.kind, Case: fmt.Sprintf("C20 sweep %s %d %s", s.name, small, sv),
+			Human: human(small, sv), Impl: o.kind + ": " + o.detail,
+			Model: "built with the generator's output, or (only if the limits do not let the program in) a *scriggo.BuildError with a limit-exceeded message"})
 		return
 	}
-	if c.D == nil || !haveRow {
+	if ans == "" {
 		return
 	}
 	// correspondence with the model's prediction
-	ans, err := c.D.Ask(fmt.Sprintf("C20 outcome %s %d", s.table, s.scale*n+s.base))
-	if err != nil {
-		return
-	}
 	impl := "ok " + o.kind
 	if o.kind == "limit" {
 		impl = "ok limit " + o.msg
@@ -786,8 +951,32 @@ func runCase(c *hx.Ctx, s sweep, n int, rows map[string]row) {
 		res.Sample(map[string]string{"case": caseLine, "model": ans, "impl": impl})
 	}
 	if impl != model {
-		res.AddBreak(proto.Break{Kind: "correspondence", Name: "build-outcome-vs-limits-table", Case: caseLine, Human: human, Impl: impl, Model: model})
+		res.AddBreak(proto.Break{Kind: "correspondence", Name: "build-outcome-vs-limits-table", Case: caseLine, Human: human(n, v), Impl: impl, Model: model})
 	}
+}
+
+// variants of a de-duplicated sweep at size n (the largest that fits, or one below)
+func variantsOf(c *hx.Ctx, s sweep, n int) []variant {
+	if !s.dedup || n < 3 {
+		return nil
+	}
+	mid := 1 + c.R.Intn(n-2)
+	vs := []variant{{reuse: []int{0, mid, n - 1}}}
+	if !s.big || !c.Quick() {
+		vs = append(vs, variant{reuse: []int{0}}, variant{reuse: []int{n - 1}}, variant{reuse: []int{mid}}, variant{reuse: []int{n - 1, 0, mid, 0}, closure: true})
+	}
+	if s.unused {
+		vs = append(vs, variant{unused: 1})
+		if !s.big || !c.Quick() {
+			vs = append(vs, variant{unused: 1 + c.R.Intn(40), reuse: []int{mid}})
+		}
+	}
+	if s.name == "global-variables" || s.name == "closure-variables" || s.template() {
+		for i := range vs {
+			vs[i].closure = false
+		}
+	}
+	return vs
 }
 
 func sizes(c *hx.Ctx, s sweep, limit int) []int {
@@ -831,6 +1020,21 @@ func sizes(c *hx.Ctx, s sweep, limit int) []int {
 	return out
 }
 
+// knownFindings replays the recorded findings of this property on the real code.
+func knownFindings(c *hx.Ctx) {
+	for _, f := range c.Findings {
+		if f.ID != "opassign-register-leak" {
+			continue
+		}
+		o := execute(prog(f.Minimal, "189\n"))
+		c.Res.Count("C20 finding "+f.ID, true)
+		if o.kind != "built" {
+			c.Res.AddBreak(proto.Break{Kind: "property", Name: "limit-spurious-limit", Case: "C20 finding " + f.ID,
+				Human: "func main() { s := 0; s += 3 (63 times); println(s) }", Impl: o.kind + ": " + o.detail, Model: "built, prints 189", Finding: f.ID})
+		}
+	}
+}
+
 func specValidation(c *hx.Ctx) {
 	// reflect.Select's capacity, as written in gen_encoding.go: 65536 cases are accepted, 65537 are not
 	try := func(n int) (panicked bool) {
@@ -857,7 +1061,7 @@ func specValidation(c *hx.Ctx) {
 
 func run(c *hx.Ctx) error {
 	res := c.Res
-	res.Rule = "encoders: every regenerated encode/decode function against the real one on the whole domain when it has at most 65536 points, otherwise boundary values (±2^k, ±2^k±1) and random operands; round trips on the real code exhaustively (Int16, Uint16, ValueIndex, RenderContext, SetVar index, one-byte index) or on boundary + random values (Uint24). sweeps: generated programs/templates whose count of one resource is n, for n just below, at and just above the limit of its table (plus random n, 2·limit+1); non-trivial = n within 2 of the limit; distinct by (sweep, n)"
+	res.Rule = "encoders: every regenerated encode/decode function against the real one on the whole domain when it has at most 65536 points, otherwise boundary values (±2^k, ±2^k±1) and random operands; round trips on the real code exhaustively (Int16, Uint16, ValueIndex, RenderContext, SetVar index, one-byte index) or on boundary + random values (Uint24). sweeps: generated programs/templates whose count of one resource is n, for n just below, at and just above the limit of its table (plus random n, 2·limit+1); at the full table and one short of it the de-duplicated tables (constants of each kind, types, functions, natives, field paths, globals, closure variables, template constants) are swept again with entries used a second time (first, last, a random middle one, several), inside a function literal, and with further entries declared but never used: these must build and print the generator's output whenever the plain program of that size does; non-trivial = n within 2 of the limit; distinct by (sweep, n, variant)"
 	specValidation(c)
 
 	if c.Replay != "" {
@@ -867,7 +1071,11 @@ func run(c *hx.Ctx) error {
 			}
 			if json.Unmarshal(data, &rp) == nil {
 				f := strings.Fields(rp.Case)
-				if len(f) == 4 && f[1] == "sweep" {
+				if (len(f) == 4 || len(f) == 5) && f[1] == "sweep" {
+					v := variant{}
+					if len(f) == 5 {
+						v = parseVariant(f[4])
+					}
 					n, _ := strconv.Atoi(f[3])
 					rows := map[string]row{}
 					if c.D != nil {
@@ -879,7 +1087,7 @@ func run(c *hx.Ctx) error {
 					}
 					for _, s := range sweeps() {
 						if s.name == f[2] {
-							runCase(c, s, n, rows)
+							runCase(c, s, n, v, rows)
 						}
 					}
 					if f[2] == "jump-distance" {
@@ -890,6 +1098,8 @@ func run(c *hx.Ctx) error {
 			}
 		}
 	}
+
+	knownFindings(c)
 
 	rows := map[string]row{}
 	if c.D != nil {
@@ -930,14 +1140,24 @@ func run(c *hx.Ctx) error {
 			continue
 		}
 		for _, n := range sizes(c, s, limit) {
-			runCase(c, s, n, rows)
+			runCase(c, s, n, variant{}, rows)
+		}
+		// a full table (and one entry short of full): use entries again, leave declared ones unused
+		at := (limit - s.base) / max(s.scale, 1)
+		for _, v := range variantsOf(c, s, at) {
+			runCase(c, s, at, v, rows)
+		}
+		if !s.big {
+			for _, v := range variantsOf(c, s, at-1) {
+				runCase(c, s, at-1, v, rows)
+			}
 		}
 		// an operand-width boundary that lies beyond the limit the code checks today would be a
 		// place where a raised limit goes wrong: also try just above the operand's capacity
 		if r, ok := rows[s.table]; ok && r.width > 0 && !s.big {
 			cap := 1<<uint(r.width) - r.reserved
 			if cap > limit && cap < 70000 {
-				runCase(c, s, (cap-s.base)/max(s.scale, 1)+1, rows)
+				runCase(c, s, (cap-s.base)/max(s.scale, 1)+1, variant{}, rows)
 			}
 		}
 	}
